@@ -279,6 +279,7 @@ func c20(r *core.Run) {
 	r.Assumptions = []string{"DB.Update runs the closure in one atomic transaction"}
 
 	r.Rule("T1", "one transaction: every Set/SetEntry/Delete on a badger.Txn in the middleware is made on the parameter of a closure passed directly to DB.Update, and that closure also reads the resource key before writing it", 10)
+	r.Rule("T2", "a refused write fails the event: in every apply handler the error returned by the Set / SetEntry / Delete that writes the resource itself flows into the return value of the update closure (through phis and result cells, and through a helper's result when the write sits in a helper)", 10)
 	r.Rule("G1", "guards: add rejects len<idx, remove rejects len<=idx, create rejects an existing or defaulted resource, change and remove reject a missing resource without default - each by returning its sentinel from the closure on an edge that does not reach the write", 10)
 	r.Rule("S1", "sibling agreement: the two middleware copies have the same guard -> sentinel sets in each of the five apply handlers", 5)
 	r.Rule("I1", "default stays immutable: the handler's default bytes (served for every resource that is not stored yet) are never a destination: the buffer handed to Item.ValueCopy is nil or freshly made, never (a variable that may hold) the default field, and no element of the default field is stored to", 2)
@@ -376,6 +377,91 @@ func c20(r *core.Run) {
 				}
 			}
 			r.Check(rmw, "T1", core.FuncName(cl), "read-before-write-on-same-txn", posOf(p, wr), "the stored value is read and rewritten on the closure's own transaction", "the write is not preceded by a read of the resource on the same transaction")
+			// the error of the write of the resource itself is the closure's result: DB.Update commits
+			// when the closure returns nil, so a write error that is dropped (assigned to a shadowed
+			// variable, overwritten) commits an empty transaction and the handler reports success - the
+			// event is published although nothing was stored. (Index entries are written with their
+			// error explicitly ignored today; they are not the stored value.)
+			for _, w := range wrs {
+				if len(w.Common().Args) < 2 || w.Value() == nil {
+					continue
+				}
+				isIndexKey := false
+				for _, ps := range phiSources(w.Common().Args[1]) {
+					if kc, ok := core.Strip(ps.V).(*ssa.Call); ok {
+						if cal := kc.Common().StaticCallee(); cal != nil && cal.Pkg == cl.Pkg && cal.Signature.Recv() != nil && strings.HasSuffix(core.TypeName(cal.Signature.Recv().Type()), "Index") {
+							isIndexKey = true // a key built by a method of the index type
+						}
+					}
+				}
+				if isIndexKey {
+					continue
+				}
+				var reaches func(v ssa.Value, fn *ssa.Function, d int) bool
+				reaches = func(v ssa.Value, fn *ssa.Function, d int) bool {
+					if d > 6 || v.Referrers() == nil {
+						return false
+					}
+					seen := map[ssa.Value]bool{}
+					var fwd func(x ssa.Value) bool
+					fwd = func(x ssa.Value) bool {
+						if seen[x] || x.Referrers() == nil {
+							return false
+						}
+						seen[x] = true
+						for _, rf := range *x.Referrers() {
+							switch y := rf.(type) {
+							case *ssa.Return:
+								if fn == cl {
+									return true
+								}
+								// a helper: its result must be the closure's result in turn
+								all := len(p.CallersOf(fn)) > 0
+								for _, cs := range p.CallersOf(fn) {
+									cv := cs.Value()
+									if cv == nil {
+										all = false
+										continue
+									}
+									var ev ssa.Value = cv
+									if _, isT := cv.Type().(*types.Tuple); isT {
+										ev = nil
+										if cv.Referrers() != nil {
+											for _, r2 := range *cv.Referrers() {
+												if ex, ok := r2.(*ssa.Extract); ok && types.TypeString(ex.Type(), nil) == "error" {
+													ev = ex
+												}
+											}
+										}
+									}
+									if ev == nil || !reaches(ev, cs.Parent(), d+1) {
+										all = false
+									}
+								}
+								if all {
+									return true
+								}
+							case *ssa.Phi:
+								if fwd(y) {
+									return true
+								}
+							case *ssa.Store:
+								// result cell of a function with a defer: *cell = v; ...; return *cell
+								if al, ok := y.Addr.(*ssa.Alloc); ok && y.Val == x && al.Referrers() != nil {
+									for _, r3 := range *al.Referrers() {
+										if ld, ok := r3.(*ssa.UnOp); ok && fwd(ld) {
+											return true
+										}
+									}
+								}
+							}
+						}
+						return false
+					}
+					return fwd(v)
+				}
+				r.Check(reaches(w.Value(), w.Parent(), 0), "T2", core.FuncName(cl), "resource-write-error-is-the-closure's-result:"+w.Common().StaticCallee().Name(), p.InstrPos(w), "the error of the write reaches the closure's return", "the error returned by the write of the resource never reaches the update closure's return value: when the write is refused (oversized value, read-only database, invalid key) the closure returns nil, DB.Update commits nothing, and the handler reports the event as applied - it is published and the listeners run although storage is unchanged")
+			}
 			sig := guardSignature(p, cl)
 			sigs[mp.rel][name] = sig
 			for _, w := range want[name] {
